@@ -40,11 +40,13 @@ def setup(common=None):
 
 def _exs(q):
     """exponent of each table key in the spelling of the object's unit (KEYS order)"""
-    out = [0, 0, 0, 0]
+    out = [0, 0, 0, 0, 0]  # the fifth entry: 1 when the unit is written with any symbol outside the edited alphabet
     try:
         for b, e in q.units.expr.as_powers_dict().items():
             if str(b) in KEYS:
                 out[KEYS.index(str(b))] = int(e)
+            elif not getattr(b, "is_Number", False):
+                out[4] = 1
     except Exception:  # noqa: BLE001
         pass
     return out
@@ -118,6 +120,22 @@ def _step(state, e, h):
                 u = U["Unit"](e["str"], registry=r)
                 obs = {"k": "unit", "s": _enc(u.base_value), "d": base._dimvec(u.dimensions)}
             res = obs
+        elif op == "newsys":
+            U["unyt"].UnitSystem("c12sess", "foo", "kg", "qux", registry=reg)
+            res = {"k": "ok"}
+        elif op == "makem":
+            r = _handle(state, h)
+            q = U["uq"](float(2 * len(objs) + 3), "m", registry=r)
+            objs.append(q)
+            state["hs"].append(h)
+            res = {"k": "obj", "o": _proj(q)}
+        elif op == "insys":
+            q = objs[e["i"] - 1].in_base("c12sess")
+            res = {"k": "obj", "o": _proj(q)}
+        elif op == "convinsys":
+            q = objs[e["i"] - 1]
+            q.convert_to_base("c12sess")
+            res = {"k": "obj", "o": _proj(q)}
         elif op == "make":
             r = _handle(state, h)
             q = U["uq"](float(2 * len(objs) + 3), e["str"], registry=r)
